@@ -141,7 +141,7 @@ pub fn run(tier: Tier, seed: u64) -> i32 {
     // (i) honest runs
     let cp = CaseParams { circ: CircParams { n_min: 2, n_max: 4, max_gates: 25, ..Default::default() }, all_scheds: false, caps: vec![0], tmp: false };
     let counter = std::sync::atomic::AtomicUsize::new(0);
-    prop_search(&ctx, "honest", tier.pick(64, 800), || gen_case(cp.clone()), |base: &MpcCase| {
+    prop_search(&ctx, "honest", tier.pick(64, 4000), || gen_case(cp.clone()), |base: &MpcCase| {
         let k = counter.fetch_add(1, std::sync::atomic::Ordering::Relaxed);
         test_case(&Case { attack: AttackCase::honest(base.clone(), 0), honest_only: true, three_subsets: base.n() == 2 && k % 2 == 0, origin: "honest".into() }, Some(&ctx))
     });
@@ -152,7 +152,7 @@ pub fn run(tier: Tier, seed: u64) -> i32 {
         for (i, (n, corrupt, p_eval)) in cfgs.into_iter().enumerate() {
             let inputs = (0..n).map(|p| vec![(seed as usize + p) % 2 == 0]).collect();
             let base = MpcCase::simple(crate::checks::c04::circ8(n), inputs, p_eval, (0..n).collect());
-            match crate::checks::c04::entries(&base, corrupt, false, seed as usize + i) {
+            match crate::checks::c04::entries(&base, corrupt, tier == Tier::Thorough, seed as usize + i) {
                 Ok(es) => {
                     for e in es {
                         cases.push(Case { attack: e.attack, honest_only: false, three_subsets: false, origin: format!("C04:{}", e.row) });
